@@ -103,6 +103,13 @@ func c14RunRule(r *c14Rule, roots []*insaneJSON.Root, perm []int, fresh []string
 	}
 	switch r.Kind {
 	case "doif":
+		// the action may carry match_mode / match_invert next to do_if: extracted as fd.setupAction does
+		mode := extractMatchMode(j)
+		if mode == pipeline.MatchModeUnknown {
+			out.Err = "ctor: unknown match_mode"
+			return out
+		}
+		out.Mode, out.Invert = int(mode), extractMatchInvert(j)
 		chk, err := extractDoIfChecker(j.Get("do_if"))
 		if err != nil || chk == nil {
 			out.Err = fmt.Sprintf("ctor: %v", err)
